@@ -999,12 +999,25 @@ class SymInt(SymNum):
         return lift(o)._bitop(self, "or")
 
     def __lshift__(self, o):
+        if isinstance(o, SymInt):
+            o = eng().concretize(o.e)
         if type(o) is int and 0 <= o < 64:
             return self * (1 << o)
         raise EngineLimit("symbolic shift")
 
     def __rlshift__(self, o):
         return o << eng().concretize(self.e)
+
+    def __rshift__(self, o):
+        # floor division by a power of two (Python's >> on ints is arithmetic)
+        if isinstance(o, SymInt):
+            o = eng().concretize(o.e)
+        if type(o) is int and 0 <= o < 64:
+            return self // (1 << o)
+        raise EngineLimit("symbolic shift")
+
+    def __rrshift__(self, o):
+        return o >> eng().concretize(self.e)
 
     def __round__(self, n=None):
         return self
@@ -1124,7 +1137,19 @@ class SymFloat(SymNum):
         return SymInt(k)
 
     def __trunc__(self):
-        raise EngineLimit("trunc of a symbolic float")
+        # truncation toward zero: floor for x >= 0, ceil for x < 0 (a fresh integer pinned by two inequalities)
+        if self.ratio is not None:
+            raise EngineLimit("trunc of an exact quotient")
+        E = eng()
+        key = ("trunc", self.e.get_id())
+        hit = E.fl_cache.get(key)
+        if hit is not None:
+            return SymInt(hit[0])
+        k = z3.Int(f"trunc!{next(E.fresh)}")
+        kr = z3.ToReal(k)
+        E._add(z3.If(self.e >= 0, z3.And(kr <= self.e, kr + 1 > self.e), z3.And(kr >= self.e, kr - 1 < self.e)))
+        E.fl_cache[key] = (k, self.e)
+        return SymInt(k)
 
     __int__ = __trunc__
 
